@@ -50,7 +50,7 @@ theorem dropWhile_gt (k : Key) : ∀ (l : List (Str × Key)), l.Pairwise (fun a 
 def GroupsOk (p : Str) (prev : Option Key) (sk : List (Str × Key)) (r : Res) : Prop :=
   r.out.Perm (sk.map (·.1)) ∧ r.out.Pairwise (fun a b => strLe a b = true) ∧ lcpOk r.out r.lcp ∧
   (∀ q, sk.head? = some q → ∃ y, r.out.head? = some y ∧ getKey? y p.length = some q.2) ∧
-  (∀ pk q, prev = some pk → sk.head? = some q → r.lcp.head? = some (p.length + lcpKeyType pk q.2))
+  (∀ pk q, prev = some pk → sk.head? = some q → r.lcp.head? = some (lcpT (p.length + lcpKeyType pk q.2)))
 
 theorem insGroups_safe (p : Str) :
     ∀ (g : Nat) (sk : List (Str × Key)) (prev : Option Key), sk.length < g →
@@ -150,7 +150,7 @@ theorem insGroups_safe (p : Str) :
         cases prev with
         | none => exact hi3
         | some pk => exact lcpOk_set0 hi3 _
-      have hhd : ∀ pk, prev = some pk → (withHead prev p.length k inner).lcp.head? = some (p.length + lcpKeyType pk k) := by
+      have hhd : ∀ pk, prev = some pk → (withHead prev p.length k inner).lcp.head? = some (lcpT (p.length + lcpKeyType pk k)) := by
         intro pk hpk; subst hpk
         simp only [withHead, setLcp]
         cases hil : inner.lcp with
@@ -190,11 +190,11 @@ theorem insGroups_safe (p : Str) :
           obtain ⟨qy, hqy, rfl⟩ := List.mem_map.1 hym
           have hyr := (hmem qy (List.mem_cons_of_mem _ (hafter_sub qy hqy))).1
           have := lcpOk_append (A := inner.out) (B := r.out) (LA := inner'.lcp) (LB := r.lcp) (by rw [← hio]; exact hio ▸ hlcpI) hr3 hrone
-            (p.length + lcpKeyType k q1.2) (by
+            (lcpT (p.length + lcpKeyType k q1.2)) (by
               intro _
               rw [hz, hy]
-              exact (keyLt_lcp (hgrp z hzg).1 hyr (hgrp z hzg).2 hyk (hafter_gt q1 hq1m)).symm)
-          have hset : r.lcp.set 0 (p.length + lcpKeyType k q1.2) = r.lcp := by
+              exact congrArg lcpT (keyLt_lcp (hgrp z hzg).1 hyr (hgrp z hzg).2 hyk (hafter_gt q1 hq1m)).symm)
+          have hset : r.lcp.set 0 (lcpT (p.length + lcpKeyType k q1.2)) = r.lcp := by
             cases hrl' : r.lcp with
             | nil => simp
             | cons a l => rw [hrl'] at hrl; simp at hrl; subst hrl; simp
